@@ -40,17 +40,19 @@ func init() {
 		Explanation: "Decided (structural necessary conditions, package pkg/blobserver/encrypt): " +
 			"X-taint — explicit information flow, package-wide and flow-insensitive: no value derived from the plaintext handed in through the storage API (the ReceiveBlob reader, plaintext blobrefs of ReceiveBlob/Fetch/StatBlobs/RemoveBlobs/EnumerateBlobs), from keys of the meta index (plaintext refs) or from the output of age.Decrypt reaches any argument of any call that is given one of the wrapped stores (a method call on storage.blobs/storage.meta or a helper such as blobserver.ReceiveNoHash/EnumerateAll taking one); the only declassifier is the writer returned by age.Encrypt; every reader/byte-slice handed to a wrapped store, and the blobref it is stored under, derive from a buffer age.Encrypt wrote into, and that blobref is computed (blob.RefFromBytes) from the very buffer that is uploaded; the value half of every meta-index row (size/encrypted-ref, later used as the name fetched from the wrapped store) does not derive from API plaintext; every age.Encrypt/age.Decrypt call is keyed from the one identity field of the storage struct. " +
 			"X-fetch — every success return of Fetch is dominated by HashMatches()==true of the fetched blob's ref against a hash fed (before the comparison) from the reader the wrapped store returned, and by a successful decryptBlob of a buffer fed by that same copy; the returned reader is the decrypt output and the returned size is the indexed plaintext size for the requested ref; decryptBlob returns nil only after the version byte compared equal to the constant encryptBlob writes, age.Decrypt succeeded and the copy of its output succeeded; encryptBlob returns nil only after the copy into the age writer and its Close succeeded. " +
-			"X-compact — in makePackedMetaBlob the removal of the small meta blobs is dominated by the success edge of the upload of the packed meta blob to the same store, which is dominated by a successful encryptBlob into the uploaded buffer, and is unreachable from the failure edge of an index look-up; the restart path exists: the constructor returns a store only after readAllMetaBlobs succeeded, which enumerates the meta store, fetches every enumerated ref from it, hands the bytes to processEncryptedMetaBlob and fails if that fails; processEncryptedMetaBlob succeeds only after a successful decryptBlob and writes an index row computed from the decrypted lines, failing if the index write fails; the header line written by both meta writers equals the one the parser accepts. " +
-			"NOT decided: implicit flows (control dependence, timing, sizes: integer, float and boolean values other than bytes are treated as carrying no plaintext), confidentiality/authenticity of age itself, what external helpers do with their arguments beyond 'results and mutable arguments depend on all arguments', which field of a decrypted meta line ends up as the encrypted ref (the index is trusted to return what was stored), that tampering is detected for any concrete byte flip, that the compacted meta blobs cover exactly the deleted ones for a concrete history, recoverability outcomes.",
+			"X-compact — in makePackedMetaBlob the removal of the small meta blobs is dominated by the success edge of the upload of the packed meta blob to the same store, which is dominated by a successful encryptBlob into the uploaded buffer, and is unreachable from the failure edge of an index look-up; what is removed is one parameter of the packer and the packed plaintext is fed from exactly one other ref-list parameter, and at every call site of the packer those two arguments are lock-step accumulators (per record one append of its row list and one append of its own ref, from the same record, in the same block; reset together; merged by phis edge by edge), so the deleted meta blobs are exactly the records whose rows were handed in for packing; the restart path exists: the constructor returns a store only after readAllMetaBlobs succeeded, which enumerates the meta store, fetches every enumerated ref from it, hands the bytes to processEncryptedMetaBlob and fails if that fails; processEncryptedMetaBlob succeeds only after a successful decryptBlob and writes an index row computed from the decrypted lines, failing if the index write fails; the header line written by both meta writers equals the one the parser accepts. " +
+			"X-index — the recoverability invariant 'the local index never knows more than the meta store durably records' (which is also what makes the duplicate short-cut at the top of ReceiveBlob and stat/enumerate sound): who-may-write enumeration of every sorted.KeyValue.Set in the package (the index handle is shown never to leave the package other than as the receiver of KeyValue methods); each write must be either REPLAYED — the row is computed only (backward slice, all leaves) from the plaintext buffer of a decrypt-helper call whose ciphertext is only a parameter that every caller in the package feeds from a reader the meta store returned for a fetch (a caller that does not is judged as a writer itself) — or DURABLE-FIRST — the write is on the success edge of an upload into the meta store (the store the start-up scan enumerates; resolved per call site through forwarding helpers, which must report the upload's failure) whose content is the ciphertext of an encrypt-helper call into whose plaintext every blob.Ref the row is computed from flows, and that meta upload is on the success edge of the upload, into the blobs store (the store Fetch reads), of the ciphertext stored under the encrypted ref the row's value is computed from. A write inside a helper or function literal is judged at every call site (bounded depth 3, row translated through the parameters); a deferred write at every run-defers point it reaches, a write started with go at the go statement; a write in a callback or an API method that is not covered where it stands is a violation. " +
+			"NOT decided: implicit flows (control dependence, timing, sizes: integer, float and boolean values other than bytes are treated as carrying no plaintext, and the size half of a row is not compared between index and meta blob), confidentiality/authenticity of age itself, what external helpers do with their arguments beyond 'results and mutable arguments depend on all arguments', which field of a decrypted meta line ends up as the encrypted ref (the index is trusted to return what was stored), that tampering is detected for any concrete byte flip, that every metaBlob record pairs a meta blob's ref with exactly the rows that blob holds (construction sites of the records are not checked, nor that the packer writes every element of its row list), index Delete/Wipe and batch writes (batch operations are reported undecided by X-taint's flow model), rows left in a persistent index by an earlier process (a crash of an older, differently ordered version; meta blobs removed behind the store's back), recoverability outcomes for any concrete history.",
 		RuleDocs: map[string]string{
 			"X-taint":   "information-flow graph over package encrypt: every data argument of every call that receives storage.blobs/storage.meta (sinks), every value written to the meta index, every age.Encrypt/Decrypt key: no flow from API plaintext / index keys / decrypt output; uploaded bytes and their refs derive from an age.Encrypt target buffer, the ref from the uploaded buffer",
 			"X-fetch":   "dominance in (*storage).Fetch, decryptBlob, encryptBlob: success returns dominated by ciphertext hash comparison over the bytes read and by authenticated decryption; size and reader provenance",
-			"X-compact": "dominance in makePackedMetaBlob (upload success before RemoveBlobs; index look-up failure never reaches the removal), restart path from the constructor through readAllMetaBlobs/processEncryptedMetaBlob to index.Set, header-constant agreement between the meta writers and the parser",
+			"X-compact": "dominance in makePackedMetaBlob (upload success before RemoveBlobs; index look-up failure never reaches the removal), removed list and packed rows are two parameters built in lock-step from the same records at every call site of the packer, restart path from the constructor through readAllMetaBlobs/processEncryptedMetaBlob to index.Set, header-constant agreement between the meta writers and the parser",
+			"X-index":   "who-may-write over every sorted.KeyValue.Set in package encrypt: each index row is either replayed only from decrypted bytes that every caller fetched from the meta store, or written on the success edge of the meta-store upload of ciphertext computed from the row's refs, itself on the success edge of the blobs-store upload of the ciphertext the row names; helpers/literals judged at their call sites, deferred writes at every run-defers point; the index handle does not escape",
 		},
 		Run:       runC11,
 		DesignRef: "DESIGN.md §4 C11",
-		Technique: "static analysis: package-local explicit information-flow (taint) graph over go/ssa with field-based struct locations and parameter/result binding, plus dominance and constant-agreement rules",
-		LevelText: "Decides structural necessary conditions only: no explicit data flow from plaintext (API reader and refs, index keys, decrypt output) into any argument handed to the wrapped stores except through age.Encrypt; uploaded names are hashes of the uploaded ciphertext buffer; Fetch returns only after the ciphertext digest check and authenticated decryption succeeded; compaction uploads before it deletes and the restart scan is wired from the constructor to the index. Does not decide cryptographic strength, implicit flows, tamper-detection outcomes or recoverability for any concrete history.",
+		Technique: "static analysis: package-local explicit information-flow (taint) graph over go/ssa with field-based struct locations and parameter/result binding, plus dominance (success-edge) rules, a who-may-write enumeration with backward value slices and call-site lifting, lock-step accumulator matching over phis, and constant-agreement rules",
+		LevelText: "Decides structural necessary conditions only: no explicit data flow from plaintext (API reader and refs, index keys, decrypt output) into any argument handed to the wrapped stores except through age.Encrypt; uploaded names are hashes of the uploaded ciphertext buffer; Fetch returns only after the ciphertext digest check and authenticated decryption succeeded; compaction uploads before it deletes and deletes only the records whose rows it was handed; the restart scan is wired from the constructor to the index; and every index row is written either from bytes fetched from the meta store or only after the meta blob recording it (and before that the ciphertext it names) was stored successfully, so the index never runs ahead of what a rebuild from the wrapped stores would give. Does not decide cryptographic strength, implicit flows, tamper-detection outcomes, the contents of a persistent index inherited from an earlier process, or recoverability for any concrete history.",
 	})
 }
 
@@ -66,6 +68,7 @@ func runC11(p *Program, r *Reporter) {
 	c11RuleTaint(p, r, g)
 	c11RuleFetch(p, r, g)
 	c11RuleCompact(p, r, g)
+	c11RuleIndex(p, r, g)
 }
 
 // ---------------------------------------------------------------------------
@@ -1694,6 +1697,7 @@ func c11RuleCompact(p *Program, r *Reporter, g *c11Flow) {
 					"no path from the failure edge of the index look-up reaches the removal",
 					bad+": the packed meta blob would lack that row while the small meta blob holding it is deleted")
 			}
+			c11CompactCoverage(p, r, g, fn, rm, enc)
 		}
 	}
 	if nRemove == 0 {
@@ -1930,7 +1934,7 @@ func c11RuleCompact(p *Program, r *Reporter, g *c11Flow) {
 			r.Violation(rule, pk+"#index.Set", p.Pos(processFn.Pos()), shortFn(processFn)+" no longer writes the index")
 		}
 	}
-	r.Floor(rule, 12)
+	r.Floor(rule, 14)
 }
 
 // uploadsTo lists the content values uploaded to the named wrapped store: the
@@ -2075,4 +2079,1104 @@ func c11ConstsWritten(g *c11Flow, fn *ssa.Function, buf ssa.Value) []string {
 		return false
 	})
 	return out
+}
+
+// ---------------------------------------------------------------------------
+// X-index — the local index never knows more than the meta store durably records
+//
+// Every write of a row into the meta index (sorted.KeyValue.Set anywhere in the
+// package: who-may-write) is an "index write event". An event is accepted in
+// exactly two forms:
+//
+//	replayed  the row is computed only from the plaintext buffer of a decrypt-helper
+//	          call whose ciphertext is (only) bytes the meta store returned for a
+//	          fetch (the restart path);
+//	durable   the event is dominated by the success edge of an upload into the meta
+//	          store whose content is ciphertext of a plaintext that the row's refs
+//	          flow into, and that upload is dominated by the success edge of the
+//	          upload, into the blobs store, of the ciphertext the row's value names.
+//
+// An event that cannot be accepted where it stands (the write sits in a helper or
+// a function literal) is lifted to every call site of that helper / literal
+// (bounded), with the row translated through the parameters; a deferred literal
+// is judged at every run-defers point it can reach, a go statement at the
+// statement itself (what it starts happens after it).
+
+type c11Roles struct {
+	encFn, decFn                                         *ssa.Function
+	encCipherIdx, encPlainIdx, decCipherIdx, decPlainIdx int
+}
+
+func (g *c11Flow) roles() (c11Roles, bool) {
+	ro := c11Roles{encCipherIdx: -1, encPlainIdx: -1, decCipherIdx: -1, decPlainIdx: -1}
+	if len(g.encCalls) != 1 || len(g.decCalls) != 1 {
+		return ro, false
+	}
+	encCall, decCall := g.encCalls[0], g.decCalls[0]
+	ro.encFn, ro.decFn = encCall.Fn, decCall.Fn
+	if ro.encFn.Parent() != nil || ro.decFn.Parent() != nil {
+		return ro, false
+	}
+	ro.encCipherIdx = g.paramIndexOfNode(ro.encFn, g.node(encCall.Args()[0]))
+	ro.decCipherIdx = g.paramIndexOfNode(ro.decFn, g.node(decCall.Args()[0]))
+	for i, prm := range ro.encFn.Params {
+		if i != ro.encCipherIdx && c11Objecty(prm.Type()) && NamedOf(prm.Type()) != g.storeType {
+			ro.encPlainIdx = i
+		}
+	}
+	if out := ResultValue(decCall.Value(), 0); out != nil {
+		for i, prm := range ro.decFn.Params {
+			if i != ro.decCipherIdx && c11Objecty(prm.Type()) && NamedOf(prm.Type()) != g.storeType && g.flows(out, prm, c11AllKinds) {
+				ro.decPlainIdx = i
+			}
+		}
+	}
+	return ro, ro.encCipherIdx >= 0 && ro.encPlainIdx >= 0 && ro.decCipherIdx >= 0 && ro.decPlainIdx >= 0
+}
+
+// c11Back is a backward slice of a set of values along SSA operands: through
+// loads to the stores of the variable (also stores into elements/fields of a
+// local array or struct), through calls to all their arguments (receiver
+// included) and through captured variables to their binding. With stopAtRefs the
+// walk stops at the first blob.Ref-typed value on each path (refs). Values with
+// nothing behind them are leaves (parameters, argument-less calls, globals).
+type c11Back struct {
+	refNamed *types.Named
+	stopRefs bool
+	stop     func(ssa.Value) bool // extra stop set: matched values are recorded as leaves
+	seen     map[ssa.Value]bool
+	refs     []ssa.Value
+	leaves   []ssa.Value
+}
+
+func (w *c11Back) addRef(v ssa.Value) {
+	v = originValue(v)
+	for _, r := range w.refs {
+		if r == v {
+			return
+		}
+	}
+	w.refs = append(w.refs, v)
+}
+
+func (w *c11Back) addLeaf(v ssa.Value) {
+	for _, r := range w.leaves {
+		if r == v {
+			return
+		}
+	}
+	w.leaves = append(w.leaves, v)
+}
+
+func (w *c11Back) isRef(t types.Type) bool {
+	n, ok := t.(*types.Named)
+	return ok && n == w.refNamed
+}
+
+func (w *c11Back) walk(v ssa.Value, depth int) {
+	if v == nil || w.seen[v] {
+		return
+	}
+	w.seen[v] = true
+	if depth > 80 {
+		w.addLeaf(v)
+		return
+	}
+	switch v.(type) {
+	case *ssa.Const, *ssa.Function, *ssa.Builtin:
+		return
+	}
+	if w.stop != nil && w.stop(v) {
+		w.addLeaf(v)
+		return
+	}
+	if w.stopRefs && w.isRef(v.Type()) {
+		// a load of a variable: look at what was stored (the stored values are refs too)
+		if o := originValue(v); o != v {
+			w.walk(o, depth+1)
+			return
+		}
+		if ld, ok := v.(*ssa.UnOp); ok && ld.Op == token.MUL {
+			if cell, ok := varOf(ld.X); ok {
+				if sts := storesTo(cell); len(sts) > 0 {
+					for _, st := range sts {
+						w.walk(st.Val, depth+1)
+					}
+					return
+				}
+			}
+		}
+		if ph, ok := v.(*ssa.Phi); ok {
+			for _, e := range ph.Edges {
+				w.walk(e, depth+1)
+			}
+			return
+		}
+		w.addRef(v)
+		return
+	}
+	switch x := v.(type) {
+	case *ssa.Parameter, *ssa.Global:
+		w.addLeaf(v)
+	case *ssa.FreeVar:
+		if b := bindingOf(x); b != nil {
+			w.walk(b, depth+1)
+		} else {
+			w.addLeaf(v)
+		}
+	case *ssa.Alloc:
+		n := 0
+		for _, in := range c11WritesInto(x) {
+			switch y := in.(type) {
+			case *ssa.Store:
+				n++
+				w.walk(y.Val, depth+1)
+			case ssa.CallInstruction:
+				n++
+				for _, a := range (CallSite{x.Parent(), y}).Args() {
+					w.walk(a, depth+1)
+				}
+			}
+		}
+		_ = n // an alloc nobody writes holds the zero value: nothing behind it
+	case *ssa.UnOp:
+		if x.Op == token.MUL {
+			if cell, ok := varOf(x.X); ok {
+				if al, isAlloc := cell.(*ssa.Alloc); isAlloc {
+					w.walk(al, depth+1)
+					return
+				}
+			}
+		}
+		w.walk(x.X, depth+1)
+	case *ssa.Call:
+		n := 0
+		for _, a := range (CallSite{x.Parent(), x}).Args() {
+			switch a.(type) {
+			case *ssa.Const, *ssa.Function, *ssa.Builtin:
+				continue
+			}
+			n++
+			w.walk(a, depth+1)
+		}
+		if !x.Call.IsInvoke() {
+			if _, static := x.Call.Value.(*ssa.Function); !static {
+				if _, bi := x.Call.Value.(*ssa.Builtin); !bi {
+					n++
+					w.walk(x.Call.Value, depth+1)
+				}
+			}
+		}
+		if n == 0 {
+			w.addLeaf(v)
+		}
+	default:
+		in, ok := v.(ssa.Instruction)
+		if !ok {
+			w.addLeaf(v)
+			return
+		}
+		n := 0
+		for _, op := range in.Operands(nil) {
+			if *op != nil {
+				n++
+				w.walk(*op, depth+1)
+			}
+		}
+		if n == 0 {
+			w.addLeaf(v)
+		}
+	}
+}
+
+// c11WritesInto lists the instructions that write into the local variable al:
+// stores to it or to an element/field address derived from it, and calls that
+// are handed it (or such an address, or a slice of it).
+func c11WritesInto(al *ssa.Alloc) []ssa.Instruction {
+	var out []ssa.Instruction
+	seen := map[ssa.Value]bool{}
+	var visit func(addr ssa.Value, depth int)
+	visit = func(addr ssa.Value, depth int) {
+		if seen[addr] || depth > 8 {
+			return
+		}
+		seen[addr] = true
+		refs := addr.Referrers()
+		if refs == nil {
+			return
+		}
+		for _, r := range *refs {
+			switch x := r.(type) {
+			case *ssa.Store:
+				if x.Addr == addr {
+					out = append(out, x)
+				}
+			case *ssa.IndexAddr:
+				if x.X == addr {
+					visit(x, depth+1)
+				}
+			case *ssa.FieldAddr:
+				if x.X == addr {
+					visit(x, depth+1)
+				}
+			case *ssa.MakeClosure:
+				if fn, ok := x.Fn.(*ssa.Function); ok {
+					for i, b := range x.Bindings {
+						if b == addr && i < len(fn.FreeVars) {
+							visit(fn.FreeVars[i], depth+1)
+						}
+					}
+				}
+			case ssa.CallInstruction:
+				if _, isPtrToBasic := al.Type().(*types.Pointer).Elem().Underlying().(*types.Array); !isPtrToBasic {
+					out = append(out, x)
+				}
+			}
+		}
+	}
+	visit(al, 0)
+	return out
+}
+
+// c11Upload is an upload of content into one wrapped store, as seen from the
+// function that contains call: a direct sink, or a call of a package helper
+// that contains the sink and reports its failure.
+type c11Upload struct {
+	call    *ssa.Call
+	content ssa.Value // in terms of call's function when known, else the sink's own argument
+	ref     ssa.Value
+	what    string
+}
+
+func (g *c11Flow) uploadEvents(p *Program, fn *ssa.Function, store string) []c11Upload {
+	var out []c11Upload
+	for _, sk := range g.sinksIn(fn, false) {
+		ca := g.contentArg(sk.c)
+		if ca == nil || sk.c.Value() == nil || sk.store != store {
+			continue
+		}
+		out = append(out, c11Upload{sk.c.Value(), ca, g.refArg(p, sk.c), c11CalleeName(sk.c)})
+	}
+	for _, c := range CallsIn(fn, false) {
+		h := c.Callee()
+		if h == nil || !g.inPkg[h] || h.Parent() != nil || h == fn || c.Value() == nil || len(c.Args()) != len(h.Params) {
+			continue
+		}
+		for _, sk := range g.sinksIn(h, false) {
+			ca := g.contentArg(sk.c)
+			if ca == nil || sk.c.Value() == nil {
+				continue
+			}
+			st := sk.store
+			for _, a := range sk.c.Args() {
+				if g.wrappedStore(g.node(a)) != "" {
+					if wi := g.paramIndexOfNode(h, g.node(a)); wi >= 0 {
+						st = g.wrappedStore(g.node(c.Args()[wi]))
+					}
+				}
+			}
+			if st != store || !c11ReportsFailure(h, sk.c.Value()) {
+				continue
+			}
+			up := c11Upload{call: c.Value(), content: ca, ref: g.refArg(p, sk.c), what: shortFn(h) + " (" + c11CalleeName(sk.c) + ")"}
+			for root := range c11BufferRoots(ca) {
+				if prm, ok := root.(*ssa.Parameter); ok {
+					if ci := g.paramIndexOfNode(h, g.node(prm)); ci >= 0 {
+						up.content = c.Args()[ci]
+					}
+				}
+			}
+			if up.ref != nil {
+				if prm, ok := originValue(up.ref).(*ssa.Parameter); ok {
+					for ri, hp := range h.Params {
+						if hp == prm {
+							up.ref = c.Args()[ri]
+						}
+					}
+				}
+			}
+			out = append(out, up)
+		}
+	}
+	return out
+}
+
+// c11ReportsFailure: every return of h whose error may be nil either returns the
+// error of call itself or is on call's success edge.
+func c11ReportsFailure(h *ssa.Function, call *ssa.Call) bool {
+	ev, hasErr, discarded := ErrValue(call)
+	if !hasErr || discarded || ErrResultIndex(h) < 0 {
+		return false
+	}
+	for _, nr := range MaybeNilErrorReturns(h) {
+		if sameOrigin(nr.Val, ev) {
+			continue
+		}
+		if ok, _ := SuccessDominates(call, c11LastInstr(nr.From)); !ok {
+			return false
+		}
+	}
+	return true
+}
+
+// c11IndexEvent is one index write as seen from function fn.
+type c11IndexEvent struct {
+	fn       *ssa.Function
+	at       []ssa.Instruction // every one of these points must be covered
+	deferred bool
+	key, val []ssa.Value
+	via      string
+}
+
+type c11IndexCtx struct {
+	p         *Program
+	r         *Reporter
+	g         *c11Flow
+	ro        c11Roles
+	metaStore string
+	blobStore string
+	refNamed  *types.Named
+	readers   []ssa.Value // readers returned by fetches from the meta store
+}
+
+func (cx *c11IndexCtx) back(vals []ssa.Value, stopRefs bool, stop func(ssa.Value) bool) *c11Back {
+	w := &c11Back{refNamed: cx.refNamed, stopRefs: stopRefs, stop: stop, seen: map[ssa.Value]bool{}}
+	for _, v := range vals {
+		w.walk(v, 0)
+	}
+	return w
+}
+
+// inPkgCallers lists the call sites of fn in the package; closed=false when fn
+// may also be entered from elsewhere (exported API method, used as a value,
+// reachable through an interface, handed to a callee as a callback).
+func (cx *c11IndexCtx) inPkgCallers(fn *ssa.Function) (sites []CallSite, closed bool) {
+	g := cx.g
+	closed = true
+	if fn.Parent() == nil {
+		if fn.Signature.Recv() != nil && token.IsExported(fn.Name()) {
+			closed = false
+		}
+		if fn.Signature.Recv() == nil && token.IsExported(fn.Name()) {
+			closed = false
+		}
+		if len(cx.p.FuncValueUses(fn)) > 0 || len(cx.p.InvokeSites(fn)) > 0 {
+			closed = false
+		}
+	}
+	for _, f := range g.fns {
+		for _, c := range CallsIn(f, false) {
+			if c.Callee() == fn && len(c.Args()) == len(fn.Params) {
+				sites = append(sites, c)
+				continue
+			}
+			for _, lit := range FuncArgClosures(c) {
+				if lit == fn {
+					closed = false
+				}
+			}
+		}
+	}
+	if fn.Parent() != nil {
+		// every use of the closure value must be one of the call sites found
+		for _, b := range fn.Parent().Blocks {
+			for _, in := range b.Instrs {
+				mc, ok := in.(*ssa.MakeClosure)
+				if !ok || mc.Fn != ssa.Value(fn) {
+					continue
+				}
+				if refs := mc.Referrers(); refs != nil {
+					for _, rf := range *refs {
+						switch x := rf.(type) {
+						case *ssa.DebugRef, *ssa.Store:
+						case ssa.CallInstruction:
+							if x.Common().Value != ssa.Value(mc) {
+								closed = false
+							}
+						default:
+							closed = false
+						}
+					}
+				}
+			}
+		}
+	}
+	return sites, closed
+}
+
+// pointsOf: the program points at which the effect of call site c takes place.
+func c11PointsOf(c CallSite) (pts []ssa.Instruction, deferred bool) {
+	if !c.IsDefer() {
+		return []ssa.Instruction{c.Instr}, false
+	}
+	for in := range ReachableFrom(c.Instr, nil) {
+		if _, ok := in.(*ssa.RunDefers); ok {
+			pts = append(pts, in)
+		}
+	}
+	sort.Slice(pts, func(i, j int) bool { return pts[i].Block().Index < pts[j].Block().Index })
+	return pts, true
+}
+
+// replayed: the row is computed only from the plaintext of a decrypt-helper call in
+// ev.fn. Returns that call.
+func (cx *c11IndexCtx) replayed(ev c11IndexEvent) *ssa.Call {
+	for _, c := range CallsIn(ev.fn, false) {
+		if c.Callee() != cx.ro.decFn || c.Value() == nil {
+			continue
+		}
+		plain := c.Value().Call.Args[cx.ro.decPlainIdx]
+		w := cx.back(append(append([]ssa.Value{}, ev.key...), ev.val...), false, func(v ssa.Value) bool { return sameOrigin(v, plain) })
+		if len(w.leaves) == 0 {
+			continue
+		}
+		only := true
+		for _, l := range w.leaves {
+			if !sameOrigin(l, plain) {
+				only = false
+			}
+		}
+		if only {
+			return c.Value()
+		}
+	}
+	return nil
+}
+
+// fedFromMeta: v (in some function of the package) carries bytes read from a
+// reader the meta store returned.
+func (cx *c11IndexCtx) fedFromMeta(v ssa.Value) bool {
+	for _, rd := range cx.readers {
+		if cx.g.flows(rd, v, c11FwdKinds) {
+			return true
+		}
+	}
+	return false
+}
+
+// durable tries to accept ev as "durably recorded first". On failure it returns
+// the most specific reason.
+func (cx *c11IndexCtx) durable(ev c11IndexEvent) (ok bool, detail, why string) {
+	g := cx.g
+	ups := g.uploadEvents(cx.p, ev.fn, cx.metaStore)
+	if len(ups) == 0 {
+		return false, "", "no upload into the meta store (" + cx.metaStore + ") in " + shortFn(ev.fn)
+	}
+	why = "no upload into the meta store dominates the index write"
+	rank := 0
+	fail := func(n int, s string) {
+		if n > rank {
+			rank, why = n, s
+		}
+	}
+	keyRefs := cx.back(ev.key, true, nil).refs
+	valRefs := cx.back(ev.val, true, nil).refs
+	for _, up := range ups {
+		dominated := true
+		reason := ""
+		for _, at := range ev.at {
+			if ok, w := SuccessDominates(up.call, at); !ok {
+				dominated, reason = false, w
+			}
+		}
+		if !dominated {
+			if ev.deferred {
+				reason += "; the write is deferred and also runs on exits taken before or on the failure of the upload"
+			}
+			fail(1, "the index write is not on the success edge of the upload into the meta store by "+up.what+" ("+reason+")")
+			continue
+		}
+		// the uploaded content is ciphertext of a plaintext the row's refs flow into
+		var encs []*ssa.Call
+		for _, f := range g.fns {
+			for _, c := range CallsIn(f, false) {
+				if c.Callee() == cx.ro.encFn && c.Value() != nil && g.flows(c.Value().Call.Args[cx.ro.encCipherIdx], up.content, c11FwdKinds) {
+					encs = append(encs, c.Value())
+				}
+			}
+		}
+		if len(encs) == 0 {
+			fail(2, "the content uploaded into the meta store by "+up.what+" is not the output of the encrypt helper")
+			continue
+		}
+		if len(keyRefs) == 0 || len(valRefs) == 0 {
+			fail(2, "cannot identify the plaintext ref / encrypted ref the index row is computed from")
+			continue
+		}
+		var covered func(r ssa.Value, depth int) bool
+		covered = func(r ssa.Value, depth int) bool {
+			for _, e := range encs {
+				if g.flows(r, e.Call.Args[cx.ro.encPlainIdx], c11AllKinds) {
+					return true
+				}
+			}
+			// a ref that is itself taken from something computed from other refs (the ref a store call returned)
+			in, isInstr := r.(ssa.Instruction)
+			if !isInstr || depth > 3 {
+				return false
+			}
+			var ops []ssa.Value
+			for _, op := range in.Operands(nil) {
+				if *op != nil {
+					ops = append(ops, *op)
+				}
+			}
+			behind := cx.back(ops, true, nil).refs
+			if len(behind) == 0 {
+				return false
+			}
+			for _, b := range behind {
+				if b == r || !covered(b, depth+1) {
+					return false
+				}
+			}
+			return true
+		}
+		missing := ""
+		for _, r := range append(append([]ssa.Value{}, keyRefs...), valRefs...) {
+			if !covered(r, 0) {
+				missing = g.nodeName(g.node(r))
+			}
+		}
+		if missing != "" {
+			fail(3, "the meta blob uploaded by "+up.what+" is not computed from the ref the index row is made of ("+missing+"): the durable row and the index row differ")
+			continue
+		}
+		// the ciphertext the row names was stored before the meta blob that names it
+		okBlob, whyBlob := cx.ciphertextFirst(ev.fn, up.call, valRefs, 0)
+		if !okBlob {
+			fail(4, "ciphertext-first: "+whyBlob)
+			continue
+		}
+		return true, "on the success edge of the upload into " + cx.metaStore + " by " + up.what + ", whose content is ciphertext of a plaintext the row's refs flow into; " + whyBlob, ""
+	}
+	return false, "", why
+}
+
+// ciphertextFirst: point `at` in fn is on the success edge of an upload into the
+// blobs store stored under (one of) encRefs.
+func (cx *c11IndexCtx) ciphertextFirst(fn *ssa.Function, at ssa.Instruction, encRefs []ssa.Value, depth int) (bool, string) {
+	g := cx.g
+	matches := func(up c11Upload, r ssa.Value) bool {
+		if up.ref != nil && sameOrigin(up.ref, r) {
+			return true
+		}
+		// the ref the store call itself reported (encSB.Ref)
+		w := cx.back([]ssa.Value{r}, false, func(v ssa.Value) bool { return v == ssa.Value(up.call) })
+		for _, l := range w.leaves {
+			if l == ssa.Value(up.call) {
+				return true
+			}
+		}
+		return false
+	}
+	why := "no upload into the blobs store (" + cx.blobStore + ") under the encrypted ref of the row in " + shortFn(fn)
+	for _, up := range g.uploadEvents(cx.p, fn, cx.blobStore) {
+		for _, r := range encRefs {
+			if !matches(up, r) {
+				continue
+			}
+			if ok, w := SuccessDominates(up.call, at); ok {
+				return true, "that upload is on the success edge of the upload of the named ciphertext into " + cx.blobStore + " by " + up.what
+			} else {
+				why = "the meta blob is uploaded although the upload of the ciphertext it names into " + cx.blobStore + " has not succeeded (" + w + ")"
+			}
+		}
+	}
+	// the encrypted ref is a parameter: the ciphertext is stored by the callers
+	if depth < 2 {
+		for _, r := range encRefs {
+			prm, ok := originValue(r).(*ssa.Parameter)
+			if !ok || prm.Parent() != fn {
+				continue
+			}
+			idx := -1
+			for i, q := range fn.Params {
+				if q == prm {
+					idx = i
+				}
+			}
+			sites, closed := cx.inPkgCallers(fn)
+			if !closed || len(sites) == 0 || idx < 0 {
+				continue
+			}
+			all := true
+			detail := ""
+			for _, cs := range sites {
+				if cs.IsDefer() || cs.IsGo() {
+					all = false
+					continue
+				}
+				refs := cx.back([]ssa.Value{cs.Args()[idx]}, true, nil).refs
+				ok, w := cx.ciphertextFirst(cs.Fn, cs.Instr, refs, depth+1)
+				if !ok {
+					all, why = false, w
+				}
+				detail = w
+			}
+			if all {
+				return true, detail + " (at the callers of " + shortFn(fn) + ")"
+			}
+		}
+	}
+	return false, why
+}
+
+// judge accepts or lifts one event. It returns ok, the accepted form and the
+// reason of the failure.
+func (cx *c11IndexCtx) judge(ev c11IndexEvent, depth int) (ok bool, form, why string) {
+	if len(ev.at) == 0 {
+		return false, "", "the deferred index write reaches no run-defers point"
+	}
+	if !ev.deferred {
+		if dec := cx.replayed(ev); dec != nil {
+			return cx.replaySource(ev, dec, depth)
+		}
+	}
+	okD, detail, whyD := cx.durable(ev)
+	if okD {
+		return true, "durable-first" + ev.via + ": " + detail, ""
+	}
+	// lift
+	sites, closed := cx.inPkgCallers(ev.fn)
+	if depth >= 3 || !closed || len(sites) == 0 {
+		if !closed {
+			whyD += "; " + shortFn(ev.fn) + " can be entered from outside the package or as a callback, so its callers cannot vouch for it"
+		}
+		return false, "", whyD
+	}
+	forms := map[string]bool{}
+	for _, cs := range sites {
+		pts, deferred := c11PointsOf(cs)
+		lifted := c11IndexEvent{fn: cs.Fn, at: pts, deferred: deferred || ev.deferred,
+			key: cx.translate(ev.fn, cs, ev.key), val: cx.translate(ev.fn, cs, ev.val),
+			via: ev.via + " via " + shortFn(ev.fn)}
+		ok, f, w := cx.judge(lifted, depth+1)
+		if !ok {
+			return false, "", w
+		}
+		forms[f] = true
+	}
+	var fs []string
+	for f := range forms {
+		fs = append(fs, f)
+	}
+	sort.Strings(fs)
+	return true, strings.Join(fs, " | "), ""
+}
+
+// translate rewrites the parameters of callee in the backward slice of vals to
+// the arguments of call site cs; values that are not computed from parameters
+// (captured variables of a literal) stay as they are.
+func (cx *c11IndexCtx) translate(callee *ssa.Function, cs CallSite, vals []ssa.Value) []ssa.Value {
+	w := cx.back(vals, true, func(v ssa.Value) bool {
+		prm, ok := v.(*ssa.Parameter)
+		return ok && prm.Parent() == callee
+	})
+	var out []ssa.Value
+	add := func(v ssa.Value) {
+		if prm, ok := v.(*ssa.Parameter); ok && prm.Parent() == callee {
+			for i, q := range callee.Params {
+				if q == prm && i < len(cs.Args()) {
+					out = append(out, cs.Args()[i])
+				}
+			}
+			return
+		}
+		out = append(out, v)
+	}
+	for _, v := range w.refs {
+		add(v)
+	}
+	for _, v := range w.leaves {
+		add(v)
+	}
+	return out
+}
+
+// replaySource: the ciphertext handed to the decrypt call dec consists only of
+// bytes fetched from the meta store: directly, or through parameters of ev.fn that
+// every caller feeds from such a fetch (a caller that does not is itself judged as
+// an index write event at its call site).
+func (cx *c11IndexCtx) replaySource(ev c11IndexEvent, dec *ssa.Call, depth int) (bool, string, string) {
+	cipher := dec.Call.Args[cx.ro.decCipherIdx]
+	w := cx.back([]ssa.Value{cipher}, false, func(v ssa.Value) bool {
+		if _, isPrm := v.(*ssa.Parameter); isPrm {
+			return true
+		}
+		for _, rd := range cx.readers {
+			if sameOrigin(v, rd) {
+				return true
+			}
+		}
+		return false
+	})
+	form := "replayed-from-meta" + ev.via + ": the row is computed only from the plaintext of " + shortFn(cx.ro.decFn) + " in " + shortFn(ev.fn)
+	var prms []*ssa.Parameter
+	for _, l := range w.leaves {
+		isReader := false
+		for _, rd := range cx.readers {
+			if sameOrigin(l, rd) {
+				isReader = true
+			}
+		}
+		if isReader {
+			continue
+		}
+		prm, ok := l.(*ssa.Parameter)
+		if !ok || prm.Parent() != ev.fn {
+			return false, "", "the ciphertext decrypted in " + shortFn(ev.fn) + " is computed from " + cx.g.nodeName(l) + ", which is neither a fetch from the meta store nor a parameter"
+		}
+		prms = append(prms, prm)
+	}
+	if len(w.leaves) == 0 {
+		return false, "", "cannot find where the ciphertext decrypted in " + shortFn(ev.fn) + " comes from"
+	}
+	if len(prms) == 0 {
+		return true, form + ", whose ciphertext is read from a fetch from " + cx.metaStore, ""
+	}
+	sites, closed := cx.inPkgCallers(ev.fn)
+	if !closed || len(sites) == 0 {
+		return false, "", shortFn(ev.fn) + " decrypts its parameter and writes the index, but can be entered from outside the package (or has no caller): nothing shows the bytes come from the meta store"
+	}
+	var fed []string
+	for _, cs := range sites {
+		okAll := true
+		for _, prm := range prms {
+			for i, q := range ev.fn.Params {
+				if q == prm && !cx.fedFromMeta(cs.Args()[i]) {
+					okAll = false
+				}
+			}
+		}
+		ck := FuncKey(ev.fn) + "#index-writer-fed-from-meta#caller:" + shortFn(cs.Fn)
+		if okAll {
+			cx.r.OK("X-index", ck, cx.p.Pos(cs.Pos()), "the bytes this caller hands to "+shortFn(ev.fn)+" flow from a reader the meta store ("+cx.metaStore+") returned for a fetch")
+			fed = append(fed, shortFn(cs.Fn))
+			continue
+		}
+		// not a replay: the call is an index write event of the caller
+		if depth < 3 {
+			pts, deferred := c11PointsOf(cs)
+			var row []ssa.Value
+			for _, prm := range prms {
+				for i, q := range ev.fn.Params {
+					if q == prm {
+						row = append(row, cs.Args()[i])
+					}
+				}
+			}
+			lifted := c11IndexEvent{fn: cs.Fn, at: pts, deferred: deferred, key: row, val: row, via: " via " + shortFn(ev.fn)}
+			if okD, detail, _ := cx.durable(lifted); okD {
+				cx.r.OK("X-index", ck, cx.p.Pos(cs.Pos()), "the bytes this caller replays were durably recorded first: "+detail)
+				continue
+			}
+		}
+		cx.r.Violation("X-index", ck, cx.p.Pos(cs.Pos()), shortFn(cs.Fn)+" feeds "+shortFn(ev.fn)+" (which writes index rows from what it decrypts) with bytes that were neither fetched from the meta store nor successfully uploaded to it before: the index learns rows the meta store does not hold; after the index is lost they cannot be recovered")
+	}
+	return true, form + ", whose ciphertext parameter every caller (" + strings.Join(fed, ", ") + ") feeds from a fetch from " + cx.metaStore, ""
+}
+
+func c11RuleIndex(p *Program, r *Reporter, g *c11Flow) {
+	const rule = "X-index"
+	defer r.Floor(rule, 4)
+	ro, ok := g.roles()
+	if !ok {
+		r.Undecided(rule, c11Rel+"#crypto-helper-roles", "?", "cannot identify the encrypt/decrypt helpers and their buffer parameters by role")
+		return
+	}
+	cx := &c11IndexCtx{p: p, r: r, g: g, ro: ro, refNamed: p.NamedType("pkg/blob", "Ref")}
+
+	// roles of the two wrapped stores: the meta store is the one the start-up scan
+	// enumerates with a callback, the blobs store the one Fetch reads
+	for _, fn := range g.fns {
+		if fn.Parent() != nil {
+			continue
+		}
+		for _, s := range g.sinksIn(fn, true) {
+			if len(FuncArgClosures(s.c)) > 0 && !strings.Contains(s.store, "|") {
+				if cx.metaStore != "" && cx.metaStore != s.store {
+					r.Undecided(rule, c11Rel+"#store-roles", p.Pos(s.c.Pos()), "two different wrapped stores are enumerated with a callback: cannot tell the meta store")
+					return
+				}
+				cx.metaStore = s.store
+			}
+		}
+	}
+	fetchIface := p.Iface("pkg/blob", "Fetcher")
+	if fetchFn, _ := p.MethodOf(g.storeType, fetchIface.Method(0).Name()); fetchFn != nil {
+		for _, s := range g.sinksIn(fetchFn, false) {
+			if v := s.c.Value(); v != nil {
+				if out := ResultValue(v, 0); out != nil && c11Implements(out.Type(), g.readerIface) && !strings.Contains(s.store, "|") {
+					cx.blobStore = s.store
+				}
+			}
+		}
+	}
+	if cx.metaStore == "" || cx.blobStore == "" || cx.metaStore == cx.blobStore {
+		r.Undecided(rule, c11Rel+"#store-roles", "?", fmt.Sprintf("cannot tell the meta store (enumerated at start-up: %q) from the blobs store (read by Fetch: %q)", cx.metaStore, cx.blobStore))
+		return
+	}
+	for _, fn := range g.fns {
+		for _, s := range g.sinksIn(fn, false) {
+			if s.store != cx.metaStore || s.c.Value() == nil {
+				continue
+			}
+			if out := ResultValue(s.c.Value(), 0); out != nil && c11Implements(out.Type(), g.readerIface) {
+				cx.readers = append(cx.readers, out)
+			}
+		}
+	}
+
+	// (a) the index handle is confined: only method calls on it
+	var idxLoc *c11Loc
+	st := g.storeType.Underlying().(*types.Struct)
+	for i := 0; i < st.NumFields(); i++ {
+		if c11Implements(st.Field(i).Type(), g.kvIface) {
+			if idxLoc != nil {
+				r.Undecided(rule, c11Rel+"#index-field", "?", "the storage type has more than one sorted.KeyValue field")
+				return
+			}
+			idxLoc = &c11Loc{g.storeType, i}
+		}
+	}
+	if idxLoc == nil {
+		brokenf("anchor unresolved: %s has no sorted.KeyValue field (the meta index)", g.storeType.Obj().Name())
+	}
+	idxReach := g.reach([]c11Source{{*idxLoc, "index field"}}, map[c11EdgeKind]bool{c11Copy: true})
+	escapes := 0
+	for _, c := range g.extCalls {
+		isKV := false
+		if rt := c.RecvType(); rt != nil && c11Implements(rt, g.kvIface) {
+			isKV = true
+		}
+		for i, a := range c.Args() {
+			if i == 0 && isKV {
+				continue // the receiver of a sorted.KeyValue method: an index operation, enumerated below
+			}
+			if _, isIdx := idxReach[g.node(a)]; isIdx && g.node(a) != nil {
+				escapes++
+				r.Undecided(rule, FuncKey(c.Fn)+"#index-escapes#"+c11CalleeName(c), p.Pos(c.Pos()), "the meta index is handed to "+c.CalleeKey()+": rows it writes there are not seen by the who-may-write enumeration")
+			}
+		}
+	}
+	if escapes == 0 {
+		r.OKTable(rule, c11Rel+"#index-handle-confined", "?", "the meta index (field "+st.Field(idxLoc.F).Name()+") is only ever the receiver of sorted.KeyValue method calls inside the package")
+	}
+
+	// (b) who may write: every Set
+	perFn := map[*ssa.Function]int{}
+	for _, c := range g.indexSets {
+		args := c.Args()
+		if len(args) < 3 {
+			continue
+		}
+		perFn[c.Fn]++
+		construct := FuncKey(c.Fn) + "#index.Set"
+		if perFn[c.Fn] > 1 {
+			construct += fmt.Sprintf("[%d]", perFn[c.Fn])
+		}
+		construct += "#backed-by-meta"
+		pts := []ssa.Instruction{c.Instr}
+		deferred := false
+		if c.IsDefer() {
+			pts, deferred = c11PointsOf(c)
+		}
+		ev := c11IndexEvent{fn: c.Fn, at: pts, deferred: deferred, key: []ssa.Value{args[1]}, val: []ssa.Value{args[2]}}
+		ok, form, why := cx.judge(ev, 0)
+		if ok {
+			r.OK(rule, construct, p.Pos(c.Pos()), form)
+			continue
+		}
+		r.Violation(rule, construct, p.Pos(c.Pos()), "this write puts a row into the local meta index that the meta store is not known to hold: "+why+". If the meta blob is missing (failed or never attempted upload, crash in between) the blob is acknowledged as a duplicate on retry, stat'ed and enumerated, yet after the index is lost the start-up scan of the meta store cannot recover it")
+	}
+	if len(g.indexSets) == 0 {
+		r.Violation(rule, c11Rel+"#index.Set", "?", "no function of the package writes the meta index any more")
+	}
+}
+
+// c11CompactCoverage: what compaction deletes is what it packed. Inside the
+// compaction function the removed refs are one parameter (D) and the plaintext of
+// the packed blob is fed from another parameter (P) of ref-slice type; at every
+// call site the two arguments are lock-step accumulators: built by appending, in
+// the same block, field f1 (a ref slice) and field f2 (a ref) of the SAME record to
+// the two lists, reset together, merged by phis edge by edge. Then D lists exactly
+// the records whose lines are in P.
+func c11CompactCoverage(p *Program, r *Reporter, g *c11Flow, fn *ssa.Function, rm c11Sink, enc *ssa.Call) {
+	const rule = "X-compact"
+	fk := FuncKey(fn)
+	site := p.Pos(rm.c.Pos())
+	refNamed := p.NamedType("pkg/blob", "Ref")
+	isRefSlice := func(t types.Type) bool {
+		sl, ok := t.Underlying().(*types.Slice)
+		return ok && NamedOf(sl.Elem()) == refNamed
+	}
+	var removed ssa.Value
+	for _, a := range rm.c.Args() {
+		if g.wrappedStore(g.node(a)) == "" && isRefSlice(a.Type()) {
+			removed = a
+		}
+	}
+	construct := fk + "#" + rm.store + ".RemoveBlobs#deletes-only-what-it-packs"
+	if removed == nil || enc == nil {
+		r.Undecided(rule, construct, site, "cannot identify the list of removed refs / the encryption of the packed blob")
+		return
+	}
+	ro, ok := g.roles()
+	if !ok {
+		r.Undecided(rule, construct, site, "cannot identify the plaintext parameter of the encrypt helper")
+		return
+	}
+	dPrm, _ := originValue(removed).(*ssa.Parameter)
+	if dPrm == nil || dPrm.Parent() != fn {
+		r.Undecided(rule, construct, site, "the list of removed refs is not a parameter of "+shortFn(fn)+": cannot relate it to what the callers packed")
+		return
+	}
+	plainBuf := enc.Call.Args[ro.encPlainIdx]
+	di, pi := -1, -1
+	nP := 0
+	for i, prm := range fn.Params {
+		if prm == dPrm {
+			di = i
+			continue
+		}
+		if isRefSlice(prm.Type()) && g.flows(prm, plainBuf, c11AllKinds) {
+			pi = i
+			nP++
+		}
+	}
+	if nP != 1 || di < 0 {
+		r.Violation(rule, construct, site, fmt.Sprintf("%d ref-list parameters of %s (other than the removed list) flow into the plaintext of the packed meta blob, want exactly 1: the packed blob is not built from the rows handed in with the list of blobs to delete", nP, shortFn(fn)))
+		return
+	}
+	if g.flows(dPrm, plainBuf, c11FwdKinds) {
+		r.Undecided(rule, construct, site, "the removed refs also flow into the packed plaintext: cannot tell the two lists apart")
+		return
+	}
+	// call sites
+	var sites []CallSite
+	for _, f := range g.fns {
+		for _, c := range CallsIn(f, false) {
+			if c.Callee() == fn && len(c.Args()) == len(fn.Params) {
+				sites = append(sites, c)
+			}
+		}
+	}
+	if len(sites) == 0 || len(p.FuncValueUses(fn)) > 0 || token.IsExported(fn.Name()) {
+		r.Undecided(rule, construct, site, shortFn(fn)+" has no call site in the package or can be called from elsewhere: the pairing of its two lists cannot be checked")
+		return
+	}
+	r.OK(rule, construct, site, fmt.Sprintf("removes exactly parameter %s; the packed plaintext is fed from parameter %s; their pairing is checked at the %d call sites", dPrm.Name(), fn.Params[pi].Name(), len(sites)))
+	n := map[*ssa.Function]int{}
+	for _, cs := range sites {
+		n[cs.Fn]++
+		ck := fmt.Sprintf("%s#call:%s[%d]#lists-in-lock-step", FuncKey(cs.Fn), shortFn(fn), n[cs.Fn])
+		ok, why := c11LockStep(cs.Args()[pi], cs.Args()[di], map[[2]ssa.Value]bool{})
+		switch {
+		case ok:
+			r.OK(rule, ck, p.Pos(cs.Pos()), "the rows to pack and the meta blobs to delete are accumulated in lock-step from the same records (one append each per record in the same block, reset together)")
+		case strings.HasPrefix(why, "?"):
+			r.Undecided(rule, ck, p.Pos(cs.Pos()), "cannot follow how the rows to pack and the meta blobs to delete are built ("+why[1:]+")")
+		default:
+			r.Violation(rule, ck, p.Pos(cs.Pos()), "the list of meta blobs to delete is not built in lock-step with the rows to pack ("+why+"): a small meta blob whose rows are not in the packed blob is deleted after the upload, its rows exist nowhere in the meta store any more and are lost with the index")
+		}
+	}
+}
+
+// c11LockStep: see c11CompactCoverage. A reason starting with "?" means the shape
+// is not understood (undecided) rather than wrong.
+func c11LockStep(a, b ssa.Value, assumed map[[2]ssa.Value]bool) (bool, string) {
+	if IsNilConst(a) && IsNilConst(b) {
+		return true, ""
+	}
+	key := [2]ssa.Value{a, b}
+	if assumed[key] {
+		return true, ""
+	}
+	pa, aPhi := a.(*ssa.Phi)
+	pb, bPhi := b.(*ssa.Phi)
+	if aPhi && bPhi {
+		if pa.Block() != pb.Block() || len(pa.Edges) != len(pb.Edges) {
+			return false, "the two lists are merged at different points"
+		}
+		assumed[key] = true
+		for i := range pa.Edges {
+			if ok, why := c11LockStep(pa.Edges[i], pb.Edges[i], assumed); !ok {
+				return false, why
+			}
+		}
+		return true, ""
+	}
+	baseA, elA, okA := c11AppendOf(a)
+	baseB, elB, okB := c11AppendOf(b)
+	if okA && okB {
+		if a.(*ssa.Call).Block() != b.(*ssa.Call).Block() {
+			return false, "the two appends are not executed together (different blocks)"
+		}
+		xa, fa, ok1 := c11FieldSource(elA)
+		xb, fb, ok2 := c11FieldSource(elB)
+		if !ok1 || !ok2 {
+			return false, "?an appended element is not a field of a record"
+		}
+		if !sameOrigin(xa, xb) {
+			return false, "the rows and the ref to delete are taken from different records"
+		}
+		if fa == fb {
+			return false, "?both lists are fed from the same field"
+		}
+		return c11LockStep(baseA, baseB, assumed)
+	}
+	if IsNilConst(a) != IsNilConst(b) {
+		return false, "one list is reset while the other keeps its entries"
+	}
+	if aPhi != bPhi || okA != okB {
+		return false, "one list is extended or merged where the other is not"
+	}
+	return false, "?unrecognised construction of the lists"
+}
+
+func c11AppendOf(v ssa.Value) (base, elems ssa.Value, ok bool) {
+	call, isCall := v.(*ssa.Call)
+	if !isCall {
+		return nil, nil, false
+	}
+	if bi, isBi := call.Call.Value.(*ssa.Builtin); !isBi || bi.Name() != "append" || len(call.Call.Args) != 2 {
+		return nil, nil, false
+	}
+	return call.Call.Args[0], call.Call.Args[1], true
+}
+
+// c11FieldSource: v is the load of field f of record x, or a one-element
+// variadic slice holding such a load.
+func c11FieldSource(v ssa.Value) (x ssa.Value, f int, ok bool) {
+	if sl, isSl := v.(*ssa.Slice); isSl {
+		al, isAl := sl.X.(*ssa.Alloc)
+		if !isAl {
+			return nil, 0, false
+		}
+		var vals []ssa.Value
+		for _, in := range c11WritesInto(al) {
+			st, isSt := in.(*ssa.Store)
+			if !isSt {
+				return nil, 0, false
+			}
+			vals = append(vals, st.Val)
+		}
+		if len(vals) != 1 {
+			return nil, 0, false
+		}
+		v = vals[0]
+	}
+	ld, isLd := v.(*ssa.UnOp)
+	if !isLd || ld.Op != token.MUL {
+		if fv, isF := v.(*ssa.Field); isF {
+			return fv.X, fv.Field, true
+		}
+		return nil, 0, false
+	}
+	fa, isFA := ld.X.(*ssa.FieldAddr)
+	if !isFA {
+		return nil, 0, false
+	}
+	return fa.X, fa.Field, true
 }
